@@ -2,6 +2,7 @@ package main
 
 import (
 	"fmt"
+	"os"
 	"path/filepath"
 	"strings"
 
@@ -39,9 +40,9 @@ func auditProblems(wd string, exp *ref.Result, ti *mon.TraceIndex) (ps []mon.Pro
 			ps = append(ps, mon.Problem{Sig: "audit-file-unreadable", Msg: err.Error()})
 			continue
 		}
-		// tags: every expected tag must be present (superset semantics, as the property states it); foreign
-		// tags that leak between records are caught by the identity of embedded records with the files on disk
-		ps = append(ps, mon.CompareAudit(got, want, path, true)...)
+		// tags: the record lists exactly the tags the reference derives for the task (those of all its inputs); a
+		// tag from anywhere else (another record, another run) is a wrong record
+		ps = append(ps, mon.CompareAudit(got, want, path, false)...)
 		loaded[path] = got
 		records += got.Count()
 		if d := got.Depth(); d > maxDepth {
@@ -72,7 +73,7 @@ func auditProblems(wd string, exp *ref.Result, ti *mon.TraceIndex) (ps []mon.Pro
 func c10(args []string) {
 	c := chk.New("C10", "exploration", args)
 	c.Build(false)
-	c.Rule("generated graphs with multi-input / multi-output tasks, parameters, MapToTags components (tags consumed downstream in commands and default output names), StreamToSubStream + joined in-ports, fan-in / fan-out, Prepend, depth <= 6; oracle: every finalized output has a parsable <path>.audit.json equal to the reference lineage tree in ProcessName, Command, Params, Tags, OutFiles and Upstream key set, recursively down to the source files (empty records), timing sane (start <= finish, duration >= 0, start non-zero); the recorded command equals the argv the command itself logged; parameter ports that exist only through InParam(name) (value used in the SetOut pattern, not in the command) belong to the record too. distinct_nontrivial = distinct (graph shape, config) with >= 3 audit records of depth >= 2")
+	c.Rule("[stale audit files] history: run with one tagging rule, output files deleted while their .audit.json files stay, run with another tagging rule - the records the second run writes carry the second run's tags only; generated graphs with multi-input / multi-output tasks, parameters, MapToTags components (tags consumed downstream in commands and default output names), StreamToSubStream + joined in-ports, fan-in / fan-out, Prepend, depth <= 6; oracle: every finalized output has a parsable <path>.audit.json equal to the reference lineage tree in ProcessName, Command, Params, Tags, OutFiles and Upstream key set, recursively down to the source files (empty records), timing sane (start <= finish, duration >= 0, start non-zero); the recorded command equals the argv the command itself logged; parameter ports that exist only through InParam(name) (value used in the SetOut pattern, not in the command) belong to the record too. distinct_nontrivial = distinct (graph shape, config) with >= 3 audit records of depth >= 2")
 	c.Assume("ids and absolute times are not compared", "MapToTags is only placed on streams it consumes alone (the component mutates the record it shares with the producer; with sibling consumers that is the C12 race)")
 	rng := c.Rand("c10")
 	type job struct {
@@ -319,6 +320,7 @@ func c10(args []string) {
 			}
 		})
 	}
+	c10staleAudit(c)
 	c.Finish()
 }
 
@@ -327,4 +329,92 @@ func minInt(a, b int) int {
 		return a
 	}
 	return b
+}
+
+// c10staleAudit: history 'complete run with one tagging rule; the output files are deleted but their audit files stay
+// (rm out/*.out does not match *.out.audit.json); the workflow is run again with another tagging rule': the records
+// written by the second run describe the second run only. (The tagging component sits behind a first processing step:
+// the tags it persists in the audit file of a source file would legitimately carry over to the next run.)
+func c10staleAudit(c *chk.Ctx) {
+	run.Parallel(c.Pick(4, 12), func(i int) {
+		root := c.CaseDir()
+		defer c.Drop(root)
+		mk := func(key, rule string) *spec.Spec {
+			s := &spec.Spec{Name: "staleaudit", MaxTasks: 2, Sources: map[string]string{"r1.txt": "r1\n", "r2.txt": "r2\n"}}
+			in, out := []spec.PortDecl{{Name: "in"}}, []spec.PortDecl{{Name: "out"}}
+			kind := spec.KCmd
+			if i%2 == 1 {
+				kind = spec.KGoFunc
+			}
+			s.Procs = append(s.Procs, &spec.Proc{Name: "src", Kind: spec.KFileSource, Files: []string{"r1.txt", "r2.txt"}},
+				&spec.Proc{Name: "P", Kind: spec.KCmd, Cmd: spec.BuildCmd("P", in, out, nil, nil, nil), Outs: []*spec.Out{{Port: "out", Pattern: "{i:in|basename}.P.out"}}},
+				&spec.Proc{Name: "TAG", Kind: spec.KMapToTags, Tags: []*spec.TagRule{{Key: key, Rule: rule}}},
+				// (explicit names: the default name of an output contains the tags)
+				&spec.Proc{Name: "A", Kind: kind, Cmd: spec.BuildCmd("A", in, out, nil, nil, nil), Outs: []*spec.Out{{Port: "out", Pattern: "{i:in|basename}.A.out"}}},
+				&spec.Proc{Name: "B", Kind: spec.KCmd, Cmd: spec.BuildCmd("B", in, out, nil, nil, nil), Outs: []*spec.Out{{Port: "out", Pattern: "{i:in|basename}.B.out"}}})
+			s.Conns = append(s.Conns, &spec.Conn{From: "src.out", To: "P.in"}, &spec.Conn{From: "P.out", To: "TAG.in"}, &spec.Conn{From: "TAG.out", To: "A.in"}, &spec.Conn{From: "A.out", To: "B.in"})
+			return s
+		}
+		s1, s2 := mk("batch", "const:old"), mk("lot", "stem")
+		cfg := Cfg{Buf: []int{1, 128}[i%2], Procs: 2}
+		desc := map[string]interface{}{"first_run": s1, "second_run": s2, "cfg": cfg, "history": "run with tag batch=old; all output files deleted, their audit files kept; run with tag lot=<stem>"}
+		res := execSpec(c, root, s1, cfg, nil, false, 0)
+		if res.Hang != "" && !strings.HasPrefix(res.Hang, "deadlock") {
+			c.Inconclusive(res.Hang)
+			return
+		}
+		exp1 := evalRef(s1, nil)
+		aps, _, _ := auditProblems(res.Wd, exp1, mon.Index(res.Trace))
+		if res.Hang != "" || res.Exit != 0 || !res.Returned || len(aps) > 0 {
+			c.Violation("audit-first-run", fmt.Sprintf("first run: exit %d %s %v", res.Exit, res.Hang, mon.Summarize(aps, 4)), desc)
+			return
+		}
+		removed := 0
+		for _, t := range exp1.Tasks {
+			for _, o := range t.Outs {
+				if os.Remove(filepath.Join(res.Wd, o)) == nil {
+					removed++
+				}
+				if (i/2)%2 == 1 && t.Proc == "B" {
+					os.Remove(filepath.Join(res.Wd, o+".audit.json")) // the last step's audit files went with their outputs
+				}
+			}
+		}
+		if removed != len(exp1.Tasks) {
+			c.Broken(fmt.Sprintf("stale-audit history: %d of %d output files could be removed", removed, len(exp1.Tasks)))
+		}
+		r2 := execSpec(c, root, s2, cfg, nil, true, 1)
+		if r2.Hang != "" && !strings.HasPrefix(r2.Hang, "deadlock") {
+			c.Inconclusive(r2.Hang)
+			return
+		}
+		if r2.Hang != "" || r2.Exit != 0 || !r2.Returned {
+			c.Violation("audit-second-run-failed", fmt.Sprintf("second run: exit %d %s: %s", r2.Exit, r2.Hang, tail(r2.Output(), 400)), desc)
+			return
+		}
+		exp2 := evalRef(s2, nil)
+		ps, n, _ := auditProblems(r2.Wd, exp2, mon.Index(r2.Trace))
+		for _, t := range exp2.Tasks {
+			for _, o := range t.Outs {
+				if got, err := mon.LoadAudit(filepath.Join(r2.Wd, o+".audit.json")); err == nil {
+					if _, stale := got.Tags["batch"]; stale {
+						ps = append(ps, mon.Problem{Sig: "audit-tags-from-an-earlier-run", Msg: fmt.Sprintf("%s was written by the second run (tag rule lot=<stem>) but its record has Tags %v: 'batch' was attached in the first run only and comes from an audit file that run left behind", o, got.Tags)})
+					}
+				}
+			}
+		}
+		if len(ps) > 0 {
+			for _, sig := range sigSet(ps) {
+				desc["problems"] = mon.Summarize(ps, 10)
+				c.Violation(sig, strings.Join(mon.Summarize(ps, 4), "\n  "), desc)
+			}
+			return
+		}
+		if n == 0 {
+			c.Inconclusive("stale-audit history: the second run wrote no record")
+			return
+		}
+		c.Count("records_after_stale_audit_files", n)
+		c.Nontrivial(fmt.Sprintf("staleaudit|%d", i))
+	})
 }
